@@ -1,6 +1,6 @@
 """C05 - stopping a prefetching iteration anywhere terminates cleanly (exact deadlock detection under the harness)."""
 from .. import sched_engine as E
-from ..common import seed
+from ..common import Violation, seed
 from . import sched_common as SC
 
 PID = 'C05'
@@ -34,7 +34,93 @@ def nontrivial(case, tr):
     return (tr.stopped_by_consumer and len(tr.delivered) < case['n']) or case['buffer'] == 1
 
 
-replay = SC.replay_with(judge)
+_sched_replay = SC.replay_with(judge)
+
+
+def _fail_at(p, ename, x):
+    # module level: the process-pool backends have to pickle it
+    if x == p:
+        from .. import progs
+        raise progs.exc_class(ename)('fn', x)
+    return x
+
+
+def check_error_leak(case):
+    """An error INSIDE the pipeline ends the iteration; the consumer handles the exception and lets go of it. At that
+    moment (no waiting, no garbage collection: the clean-up of a generator is synchronous) every hand-over thread of the
+    pipeline has exited - also the thread of a healthy sibling input / of the input below a parallel map. Real threads;
+    the verdict does not depend on timing: a leaked thread is blocked in put() for good."""
+    import gc
+    import threading
+    import lazy_dataset
+    from .. import progs
+    n, p, b = case['n'], case['fail_at'], case['buffer']
+    E_ = progs.exc_class(case['exc'])
+
+    import functools
+    bad = functools.partial(_fail_at, p, case['exc'])
+
+    def src():
+        return lazy_dataset.new(list(range(n)))
+    shape = case['shape']
+    if shape in ('intersperse', 'zip', 'concatenate'):
+        good, failing = src().prefetch(1, b), src().map(bad)
+        pair = (good, failing) if case['good_first'] else (failing, good)
+        ds = getattr(pair[0], shape)(pair[1])
+        ds = ds.prefetch(1, case['outer']) if case['outer'] else ds
+    elif shape == 'parmap':
+        ds = src().prefetch(1, b).map(bad, num_workers=2, buffer_size=max(2, case['outer']), backend=case['backend'])
+    else:  # 'prefetch_pool': failing map below a multi-worker prefetch above a healthy... single-thread stage
+        ds = src().prefetch(1, b).map(bad).prefetch(1, max(1, case['outer']))
+    was = gc.isenabled()
+    gc.disable()
+    before = set(threading.enumerate())
+    got = []
+    try:
+        try:
+            for x in ds:
+                got.append(x)
+        except E_:
+            pass
+        else:
+            if p < n:
+                raise Violation('error-swallowed|leak-part', f'{case}\nthe failing example {p} never surfaced; got {got}')
+        leaked = [t.name for t in threading.enumerate() if t not in before and t.is_alive() and '(worker)' in t.name]
+        if leaked:
+            raise Violation(f'thread-alive-after-error|{shape}',
+                            f'{case}\nthe pipeline failed at example {p}, the consumer caught the exception and let go '
+                            f'of it; hand-over threads still alive (blocked, until some garbage collection): {leaked}')
+    finally:
+        del ds
+        gc.collect()
+        if was:
+            gc.enable()
+
+
+def error_leak_cases(tier):
+    out = []
+    for shape in ('intersperse', 'zip', 'concatenate'):
+        for good_first in (True, False):
+            for outer in (0, 1, 2):
+                for p_ in (0, 2) if tier == 'quick' else (0, 1, 2, 5):
+                    for exc in ('VErrA', 'VBase') if outer else ('VErrA',):
+                        out.append({'leak': True, 'shape': shape, 'good_first': good_first, 'outer': outer, 'n': 6,
+                                    'fail_at': p_, 'buffer': 1 + (p_ % 2), 'exc': exc})
+    for be in ('t', 'thread', 'dill_mp', 'concurrent_mp'):
+        for p_ in (0, 2, 4):
+            out.append({'leak': True, 'shape': 'parmap', 'backend': be, 'outer': 2 + p_ % 2, 'n': 6, 'fail_at': p_,
+                        'buffer': 2, 'exc': 'VErrA'})
+    for p_ in (0, 3):
+        out.append({'leak': True, 'shape': 'stacked', 'outer': 2, 'n': 6, 'fail_at': p_, 'buffer': 1, 'exc': 'VErrA'})
+    return out
+
+
+def replay(case):
+    if case.get('leak'):
+        from .. import progcheck
+        progcheck.setup_process()
+        return check_error_leak(case)
+    return _sched_replay(case)
 
 
 POOL_RUNS = {'quick': 10, 'thorough': 250}
@@ -45,6 +131,21 @@ def run_shard(tier, idx, nshards, rec, known):
     if not outs[0].violation:
         # part "dfs": every schedule with a bounded number of preemptions for small workloads (exhaustive)
         outs.append(SC.run_dfs(SC.dfs_workloads('stop', tier), judge, nontrivial, rec, known, idx, nshards))
+    if idx == 1 % nshards and not any(o.violation for o in outs):
+        # part "error-leak": real threads, an error inside the pipeline, no garbage collection
+        from ..common import Outcome
+        o = Outcome()
+        for case in error_leak_cases(tier):
+            try:
+                check_error_leak(case)
+            except Violation as v:
+                if known.match(v.sig):
+                    rec.known_hits[v.sig.split('|')[0]] += 1
+                    continue
+                o.violation = (case, v.sig, v.detail)
+                break
+            rec.case(case, True, ['error-leak:' + case['shape']], size=case['n'])
+        outs.append(o)
     if idx == 0 and not any(o.violation for o in outs):
         # part "pools": the five real backends (threads and process pools) with delay tables
         outs.append(SC.run_pools('stop', rec, known, POOL_RUNS[tier], seed() * 1000 + 999))
